@@ -59,9 +59,46 @@ Section UtlruBridge.
   Ltac norm := cbv [tt_cap tt_ttl tt_elems tt_index tt_list tt_end tt_ord tt_used
                     set_tt_cap set_tt_ttl set_tt_elems set_tt_index set_tt_list set_tt_end set_tt_ord set_tt_used
                     te_expire te_keyed te_lru te_ttl te_val set_te_expire set_te_keyed set_te_lru set_te_ttl set_te_val] in *.
-  Ltac crush := repeat (proj; inner; clean); proj; simpl; try congruence; auto.
+  (* ---- tolerance to the arithmetic form the source happens to use (m_used_size += 1 for ++m_used_size, < 1 for
+     == 0, != 0 for > 0, ...): boolean comparisons of naturals become Props, lia decides ---- *)
+  Ltac b2p :=
+    repeat match goal with
+           | H : negb _ = true |- _ => apply Bool.negb_true_iff in H
+           | H : negb _ = false |- _ => apply Bool.negb_false_iff in H
+           | H : andb _ _ = true |- _ => apply Bool.andb_true_iff in H; destruct H
+           | H : orb _ _ = false |- _ => apply Bool.orb_false_iff in H; destruct H
+           | H : (_ <? _) = true |- _ => apply Nat.ltb_lt in H
+           | H : (_ <? _) = false |- _ => apply Nat.ltb_ge in H
+           | H : (_ =? _) = true |- _ => apply Nat.eqb_eq in H
+           | H : (_ =? _) = false |- _ => apply Nat.eqb_neq in H
+           | H : (_ <=? _) = true |- _ => apply Nat.leb_le in H
+           | H : (_ <=? _) = false |- _ => apply Nat.leb_gt in H
+           end.
+  Ltac arith := solve [ b2p; first [ exfalso; lia | f_equal; lia | lia ] ].
+  (* is c a boolean combination of comparisons of naturals? *)
+  Ltac natcond c :=
+    lazymatch c with
+    | Nat.ltb _ _ => idtac
+    | Nat.leb _ _ => idtac
+    | Nat.eqb _ _ => idtac
+    | negb ?a => natcond a
+    | andb ?a ?b => natcond a; natcond b
+    | orb ?a ?b => natcond a; natcond b
+    end.
+  (* case analysis on a test of naturals of the goal, however it is written *)
+  Ltac natcase :=
+    match goal with
+    | |- context [if ?c then _ else _] => natcond c; let E := fresh "Hnc" in destruct c eqn:E
+    end.
+  (* all the tests of naturals of the goal; the cases in which two of them disagree are closed by lia *)
+  Ltac natcases := repeat natcase; try arith.
+  (* two tests of naturals that say the same *)
+  Ltac beq :=
+    solve [ reflexivity
+          | match goal with |- ?c = ?d => natcond c; natcond d; destruct c eqn:?; destruct d eqn:?; try reflexivity; arith end ].
+  Ltac crush := repeat (proj; inner; clean); proj; simpl; try congruence; auto; try arith.
   Ltac callee L := let P := fresh "P" in pose proof L as P; unfold req in P; revert P.
-  Ltac finish := intros; clean; subst; try contradiction; try congruence; auto.
+  Ltac finish := intros; clean; subst; try contradiction; try congruence; auto; try arith.
 
   (* ---- the node list m_ttl_list against the deadline structure of TtlLit.v ---- *)
   Lemma nl_remove_eq n (o : list (Z * nat)) : nl_remove n o = ord_remove n o.
@@ -83,7 +120,7 @@ Section UtlruBridge.
                    | It n => if ord_has n o then Ok (ord_remove n o) else UB "erase through an invalid list iterator"
                    end.
   Proof. destruct i; simpl; auto. unfold nl_names. rewrite <- ord_has_mem. reflexivity. Qed.
-  Ltac crush2 := repeat (proj; try rewrite !nl_erase_unf; inner; clean); proj; simpl; try congruence; auto.
+  Ltac crush2 := repeat (proj; try rewrite !nl_erase_unf; inner; clean); proj; simpl; try congruence; auto; try arith.
 
   Lemma g_do_erase_ok (s : ttll K V) (i : nat) : req (g_do_erase s i) (tt_do_erase s i).
   Proof.
@@ -97,7 +134,7 @@ Section UtlruBridge.
   Lemma g_do_prune_ok (s : ttll K V) now : req (g_do_prune s now) (tt_do_prune true s now).
   Proof.
     unfold g_do_prune, tt_do_prune. rewrite nl_deref_begin.
-    destruct (0 <? tt_used s); [|simpl; auto].
+    natcases; [|cbn [bind req]; reflexivity].
     destruct (tt_ord s) as [|[z idx] r]; [simpl; auto|]. cbn [bind]. unfold vref, vget.
     destruct (nth_error (tt_elems s) idx) as [e|] eqn:N; cbn [bind]; [|simpl; auto]. rewrite N. cbn [bind].
     destruct (te_expire e <=? now)%Z.
@@ -291,6 +328,9 @@ Section UtlruBridge.
       rewrite vget_upd by auto. cbn [bind]. rewrite vset_upd by auto. cbn [bind]. proj.
       rewrite vset_lt by auto. cbn [bind].
       apply req_bind; [apply req_refl|]. intros ne En. proj.
+      (* the state handed to do_access is the literal machine's, up to the way m_used_size + 1 is written *)
+      match goal with |- req (bind (g_do_access ?st _) _) (tt_access ?st' _) =>
+        let Q := fresh "Q" in assert (Q : st = st') by (norm; first [reflexivity | f_equal; lia]); rewrite Q; clear Q end.
       match goal with |- req (bind (g_do_access ?st ?i) _) _ => pose proof (g_do_access_ok st i) as P end.
       norm.
       rewrite vget_upd in P by auto. cbn [bind] in P.
@@ -515,7 +555,7 @@ Section UtlruBridge.
   Proof.
     unfold g_clean_expired_values, tt_clean. cbv zeta.
     match goal with |- req (bind (whileB ?f ?C ?B _) _) _ =>
-      pose proof (g_clean_loop now C B (fun _ _ => eq_refl) (fun _ _ => eq_refl) f s 0) as G end.
+      pose proof (g_clean_loop now C B ltac:(intros; cbv beta iota; f_equal; beq) (fun _ _ => eq_refl) f s 0) as G end.
     revert G. destruct (whileB _ _ _ _) as [[s' n']|]; cbn [bind]; auto.
   Qed.
 
@@ -572,7 +612,7 @@ Section UtlruBridge.
                                                (List.length (tt_elems s))
                                else s').
   Proof.
-    unfold tt_step, g_clear. destruct (0 <? tt_used s); eexists; (split; [reflexivity|]); [|reflexivity].
+    unfold tt_step, g_clear. natcases; eexists; (split; [reflexivity|]); [|reflexivity].
     cbv [umap_reserve l_iota]. norm. cbn [bind]. reflexivity.
   Qed.
 
@@ -586,7 +626,7 @@ Section UtlruBridge.
     pose proof C as (Hle & Hnd & Hlen & Hb & Hix & Hnk & Hmap & Hord & Hndo & Huo & Hz & HA & HB).
     pose proof (core_len _ _ _ _ _ _ _ _ _ C) as Ln.
     pose proof (core_len_ord _ _ _ _ _ _ _ _ _ C) as Lo.
-    unfold g_clear. destruct (Nat.ltb_spec 0 (tt_used l)) as [Hpos|Hzero].
+    unfold g_clear. natcase; b2p.
     - proj. cbn [umap_reserve bind]. eexists. split; [reflexivity|].
       apply (rep2_intro true _ _ [] (seq 0 (tl_cap m))). unfold rep2, core, tl_init. proj. unfold l_iota.
       rewrite Hl, Hlen, Hle.
